@@ -19,7 +19,7 @@ from ..coqrun import cN, cZ, cbool, clist
 from ..tok import S
 
 PID = "C18"
-COQ_HEADER = ("From Coq Require Import List NArith ZArith.\nFrom SK Require Import lib.Tok model.C18_Model model.C18_AttrModel model.C18_WLModel model.C18_BackendModel model.C18_DepthModel model.C18_RunModel model.C18_AutAttrModel model.C18_SpAttrModel.\n"
+COQ_HEADER = ("From Coq Require Import List NArith ZArith.\nFrom SK Require Import lib.Tok model.C18_Model model.C18_AttrModel model.C18_WLModel model.C18_BackendModel model.C18_DepthModel model.C18_RunModel model.C18_AutAttrModel model.C18_SpAttrModel model.C18_SigLogModel.\n"
               "Import ListNotations.\n")
 SHARD = 60
 IMPL_TIMEOUT = 1500
@@ -73,6 +73,10 @@ ASSUMPTIONS = ["species labels are disjoint from reaction ids (the views put bot
                "stoich_r / stoich_p in coq/model/C18_SpAttrModel.v (C18_spattr_*), on the name-dependent sets (via / rules / maps) oracle only",
                "a kept analyzer serves the current network only after edits through the hypergraph's mutating methods (documented; "
                "C18_backend_serves_current / C18_backend_is_dirty_flags / C18_backend_silent_edit_refuted): the oracle judges fresh analyzers only",
+               "species view: hypergraph_to_species_graph takes no include_stoich and the default edge_attr_keys (role, stoich) do not exist on its "
+               "arcs, so there 'stoichiometry on / off' is one configuration and 'structure-preserving' / 'isomorphic' / 'identical canonical graph' "
+               "mean arcs + kinds (C18_species_view_ignores_stoich, C18_species_view_coefficients_invisible; e.g. A>>B, 2B>>A has 2 self-maps); the "
+               "coefficients enter only through edge_attr_keys=('stoich_r','stoich_p') (C18_spattr_* theorems; second halves of clauses 2-4: oracle)",
                "views above 45 nodes are judged by the oracle only (the model's refinement is O(n^4) under vm_compute)",
                "stoichiometric coefficients are positive integers",
                "the property's clauses are judged without max_depth / timeout / max_count (with them: correspondence + C18_max_depth_* / "
@@ -583,7 +587,36 @@ def impl(case):
         return _impl_depth(case)
     if case.get("ks"):
         return _impl_vf2opts(case)
+    if case.get("siglog"):
+        return _impl_siglog(case)
     return [_impl_net(n, case["view"], case["stoich"], case.get("intids", False)) for n in case["nets"]]
+
+
+def _impl_siglog(case):
+    """EVERY call of CRNCanonicalizer._sig of a canonicalisation, in call order: (node, partition, the signature tuple flattened:
+    kind, in-degree, out-degree, neighbour count per cell, sorted out-edge (role, stoich) pairs)"""
+    from synkit.CRN.Topo.canon import CRNCanonicalizer
+    inc, st = case["view"] == "bip", case["stoich"]
+    out = []
+    for net in case["nets"]:
+        H = _build(net)
+        rank = _table(H)
+        C = CRNCanonicalizer(H, include_rule=inc, include_stoich=st)
+        log = []
+        orig = C._sig
+
+        def wrapped(G_, v, part, orig=orig, log=log, rank=rank):
+            sg = orig(G_, v, part)
+            node_attrs, degree, counts, edge_mult = sg
+            flat = [KIND[node_attrs[0]], degree[0], degree[1]] + list(counts) + \
+                   [x for (r, q) in edge_mult for x in (ROLE[r], -1 if q is None else int(q))]
+            log.append([rank[v], [[rank[w] for w in c] for c in part], flat])
+            return sg
+
+        C._sig = wrapped
+        C.summary()
+        out.append(log)
+    return out
 
 
 def _impl_depth(case):
@@ -695,6 +728,8 @@ def coq_case(case):
     if case.get("mds"):
         mds = clist(["None" if d is None else "(Some %d%%nat)" % d for d in case["mds"]])
         return "L %s" % clist(["run_md_case %s %s %s %s" % (cbool(case["view"] == "bip"), cbool(case["stoich"]), _coq_net(n), mds) for n in case["nets"]])
+    if case.get("siglog"):
+        return "run_siglog_case %s %s %s" % (cbool(case["view"] == "bip"), cbool(case["stoich"]), clist([_coq_net(n) for n in case["nets"]]))
     if case.get("ks"):
         ks = clist([cZ(k) for k in case["ks"]])
         return "L %s" % clist(["run_vf2opts %s %s %s %s %s" % (cbool(case["view"] == "bip"), cbool(case["stoich"]), cbool(ii), _coq_net(n), ks)
@@ -1742,6 +1777,16 @@ def _option_cases(rng):
     return out
 
 
+def _siglog_cases(rng, count):
+    """the same kinds of networks once more with EVERY _sig call as the observable (rings, stars, special, digraphs, random)"""
+    pool = _ring_cases(rng, [3, 4, 5], more=1) + _star_cases(rng, [2, 3]) + _special_cases(rng) + _digraph_cases(rng, 20) + \
+        [_random_case(rng, *CONFIGS[k % 3]) for k in range(30)]
+    out = []
+    for c in rng.sample(pool, min(count, len(pool))):
+        out.append(dict(c, kind="sigs", siglog=True))
+    return out
+
+
 def _bigsym_cases(rng, ms, heavy_ms, model_bip=True):
     """large symmetric groups: m mutually interchangeable species (|Aut| = m!, 720 / 5040): one reaction hub >> S1..Sm, one reaction
     S1+..+Sm >> P, m parallel reactions S_i >> P, and near misses (one coefficient raised: the group drops to (m-1)!).  The depth-first
@@ -1795,6 +1840,7 @@ def gen_cases(tier, rng):
     cases += _bigsym_cases(rng, [6], [6], model_bip=False) if tier == "quick" else _bigsym_cases(rng, [6, 7], [6])
     cases += _intids_cases(rng)
     cases += _option_cases(rng)
+    cases += _siglog_cases(rng, 50 if tier == "quick" else 150)
     cases += _attr_cases(rng)
     cases += _hist_cases(rng, 30 if tier == "quick" else 300)
     cases += _big_cases(rng, [12, 40] if tier == "quick" else [12, 40, 100])
@@ -1816,7 +1862,7 @@ def gen_cases(tier, rng):
     return cases
 
 
-LEVEL_TEXT = ("Machine-checked proof (Coq, 50 theorems, closed under the global context) over an executable model of CRNCanonicalizer / "
+LEVEL_TEXT = ("Machine-checked proof (Coq, 53 theorems, closed under the global context) over an executable model of CRNCanonicalizer / "
               "CRNAutomorphism / WLCanonicalizer, the two network views and the analyzers' cached-view state, for ALL views: the canonical graph is the view relabelled by a bijection onto "
               "k+1..k+n (clause 1); a view renamed by a map injective on its nodes and presented in any other node/arc order gets the same "
               "minimal label and the identical canonical graph (clause 2: signature/label/initial partition equivariant, generic IR leaf "
